@@ -405,6 +405,8 @@ def enc_tiger(sents, idstyle=0, explicit_root=True, perm_nt=False, perm_edge=Fal
                 if perm_attr:
                     ea.reverse()
                 out.append("<edge %s/>\n" % " ".join("%s=%s" % (k, _qa(v)) for k, v in ea))
+            if secedge and ch:
+                out.append("<secedge label=\"SE\" idref=\"%s\"/>\n" % ident[id(ch[0])])
             out.append("</nt>\n")
         out.append("</nonterminals>\n</graph>\n</s>\n")
     out.append("</body>\n</corpus>\n")
